@@ -130,6 +130,17 @@ def step : List String → String
     | _, _, _, _, _, _ => "bad-op"
   | ["cb21_parse", h] => match parseHex h with
     | some b => resLine dumpCb21 (CertBlock.parseV21Block execOps (fun _ => true) b) | none => "bad-op"
+  -- ISK certificate lite / certificate block Vx
+  | ["lite_tbs", cs, pk] => match parseNat cs, parseHex pk with
+    | some cs, some pk => okHex (CertBlock.liteTbs { constraints := cs, pubKey := pk, signature := [] }) | _, _ => "bad-op"
+  | ["lite_export", cs, pk, sg] => match parseNat cs, parseHex pk, parseHex sg with
+    | some cs, some pk, some sg => okHex (CertBlock.liteExport { constraints := cs, pubKey := pk, signature := sg }) | _, _, _ => "bad-op"
+  | ["vx_parse", h] => match parseHex h with
+    | some b => resLine (fun i => s!"{i.constraints} {hx i.pubKey} {hx i.signature}") (CertBlock.vxParse (fun _ => true) b) | none => "bad-op"
+  | ["vx_hash", cs, pk, sg] => match parseNat cs, parseHex pk, parseHex sg with
+    | some cs, some pk, some sg =>
+      resLine (fun h => hx h ++ " " ++ hexL (CertBlock.vxFuseWords h))
+        (CertBlock.vxCertHash execOps { constraints := cs, pubKey := pk, signature := sg }) | _, _, _ => "bad-op"
   | _ => "bad-op"
 
 def main : IO Unit := Driver.loop step
